@@ -50,9 +50,16 @@ pub fn id_of<T: Term>(t: T) -> u64 {
     }
 }
 
+/// The id of an item: carried by its subject, or (multi-object Turtle statements, which share
+/// one subject) by its object.
+pub fn tid<T: Triple>(t: &T) -> u64 {
+    let s = id_of(t.s());
+    if s != 63 { s } else { id_of(t.o()) }
+}
+
 pub fn keep<T: Triple>(op: &Op, t: &T) -> bool {
     op.calls.set(op.calls.get() + 1);
-    (op.mask >> (id_of(t.s()) & 63)) & 1 == 1
+    (op.mask >> (tid(t) & 63)) & 1 == 1
 }
 
 pub fn renamed_predicate(k: u8, p: &str) -> String {
@@ -76,7 +83,7 @@ fn rename_inner<T: Triple>(k: u8, t: T) -> [SimpleTerm<'static>; 3] {
 
 pub fn fmap<T: Triple>(op: &Op, t: T) -> Option<[SimpleTerm<'static>; 3]> {
     op.calls.set(op.calls.get() + 1);
-    if (op.mask >> (id_of(t.s()) & 63)) & 1 == 1 {
+    if (op.mask >> (tid(&t) & 63)) & 1 == 1 {
         Some(rename_inner(op.k, t))
     } else {
         None
@@ -87,10 +94,12 @@ pub fn fmap<T: Triple>(op: &Op, t: T) -> Option<[SimpleTerm<'static>; 3]> {
 // reference model
 
 pub fn item_id(t: &MTriple) -> u64 {
-    match &t[0] {
+    let of = |x: &MTerm| match x {
         MTerm::Iri(i) => id_of_str(i),
         _ => 63,
-    }
+    };
+    let s = of(&t[0]);
+    if s != 63 { s } else { of(&t[2]) }
 }
 
 /// What the chain delivers for these source items, and how often each stage's closure runs.
